@@ -1094,7 +1094,14 @@ func genFunctionWrapper(n *node) func(*frame) reflect.Value {
 
 		return reflect.MakeFunc(funcType, func(in []reflect.Value) []reflect.Value {
 			// Allocate and init local frame. All values to be settable and addressable.
-			fr := newFrame(f, len(def.types), f.runid())
+			id := f.runid()
+			if f.anc == nil {
+				// A function of the global frame may be called long after its wrapper was
+				// created, possibly after a cancelled evaluation: the call belongs to the
+				// current run.
+				id = n.interp.runid()
+			}
+			fr := newFrame(f, len(def.types), id)
 			d := fr.data
 			for i, t := range def.types {
 				d[i] = reflect.New(t).Elem()
@@ -1403,6 +1410,10 @@ func call(n *node) {
 
 		// Call bin func if defined
 		if bf.IsValid() {
+			if f.runid() != n.interp.runid() {
+				// The evaluation was cancelled: do not start the call.
+				return nil
+			}
 			var callf func([]reflect.Value) []reflect.Value
 
 			// Lambda definitions are necessary here. Due to reflect internals,
@@ -1426,11 +1437,18 @@ func call(n *node) {
 				// The function value is also evaluated by the go statement,
 				// not by the new goroutine: do not read it from its variable there.
 				fn := detachedCopy(bf)
-				if hasVariadicArgs {
-					go fn.CallSlice(in)
-				} else {
-					go fn.Call(in)
-				}
+				id := f.runid()
+				go func() {
+					if id != n.interp.runid() {
+						// The evaluation was cancelled before the goroutine could start.
+						return
+					}
+					if hasVariadicArgs {
+						fn.CallSlice(in)
+					} else {
+						fn.Call(in)
+					}
+				}()
 				return tnext
 			}
 
@@ -2045,7 +2063,14 @@ func getFunc(n *node) {
 		fr := f.clone()
 		fct := reflect.MakeFunc(n.typ.TypeOf(), func(in []reflect.Value) []reflect.Value {
 			// Allocate and init local frame. All values to be settable and addressable.
-			fr2 := newFrame(fr, len(n.types), fr.runid())
+			id := fr.runid()
+			if fr.anc == nil {
+				// A closure created in the global frame may be called after a cancelled
+				// evaluation: the call belongs to the current run, not to the one which
+				// created the closure.
+				id = n.interp.runid()
+			}
+			fr2 := newFrame(fr, len(n.types), id)
 			d := fr2.data
 			for i, t := range n.types {
 				d[i] = reflect.New(t).Elem()
